@@ -241,7 +241,16 @@ def _run(prop, tier, prof, replay_path, t0, sd, work):
                     bs = bs[:g["max"]]
             log(f"[{prop}] generated {len(bs)} behaviours ({g['mode']}) t={round(time.time()-t0)}s")
             raw.extend(bs)
-        raw = dedupe(raw) + driven
+        raw = dedupe(raw)
+        # simulation prints every candidate successor: large runs are thinned to a seeded sample
+        cap = tp.get("max_behaviours", 6000 if tier == "quick" else 40000)
+        if len(raw) > cap:
+            import random
+            keep = raw[:1] if verify.get("violated") or (verify.get("blob_model") or {}).get("violated") else []
+            rng = random.Random(sd * 31 + 7)
+            raw = keep + rng.sample(raw[len(keep):], cap - len(keep))
+            log(f"[{prop}] thinned to {len(raw)} behaviours")
+        raw = raw + driven
         if prof.get("scans"):
             import random
             import drive
